@@ -1,6 +1,6 @@
 (** Proofs about coq/model/Api.v (C20). *)
 From Coq Require Import ZArith QArith Qabs List Bool String Lia Arith.
-From Verif Require Import Base Cal Period PeriodStr Param Engine EngineProofs Api ApiSpec.
+From Verif Require Import Base Cal Period PeriodStr Param ParamProofs Engine EngineProofs Api ApiSpec.
 Import ListNotations.
 Open Scope string_scope.
 Local Notation length := List.length.
@@ -958,3 +958,13 @@ Section Layouts.
     - rewrite (verdict_of _ _ exp_by_instance), (verdict_of _ _ exp_by_variable). symmetry. apply holds_layouts.
   Qed.
 End Layouts.
+
+(** * Listing of a leaf parameter *)
+
+Lemma parameter_listing : forall (h : hist Z), decreasing h ->
+  api_parameter_values h = map (fun kv => (iso_date (of_ord (fst kv)), snd kv)) h
+  /\ forall (d k : Z) (v : option Z), In (k, v) h -> (k <= d)%Z ->
+       (forall k' v', In (k', v') h -> (k' <= d)%Z -> (k' <= k)%Z) -> get_at h d = v.
+Proof.
+  intros h Hdec. split; [reflexivity|]. intros d k v. now apply get_at_latest_any.
+Qed.
